@@ -21,8 +21,12 @@ import time
 
 VERIF = os.path.dirname(os.path.dirname(os.path.abspath(__file__)))
 REPO = os.environ.get("DWGREP_REPO", "/repo")
-BUILD = os.path.join(VERIF, "build")
-COQ = os.path.join(VERIF, "coq")
+# VERIF_BUILD / VERIF_OUT: where binaries and where evidence + replays go; only tools/try_seed_iso.sh
+# sets them (a seeded change is tried on a scratch copy of the repository without disturbing /repo,
+# build/ or evidence/)
+BUILD = os.environ.get("VERIF_BUILD") or os.path.join(VERIF, "build")
+OUTROOT = os.environ.get("VERIF_OUT") or VERIF
+COQ = os.environ.get("VERIF_COQ") or os.path.join(VERIF, "coq")      # (a scratch copy in tools/try_seed_iso.sh)
 NPROC = str(os.cpu_count() or 4)
 
 # axioms of the standard library that the development is allowed to rely on;
@@ -79,7 +83,7 @@ def build_impl(flavour="plain"):
     """(Re)build dwgrep + drivers from /repo's working tree.  Returns (ok, log)."""
     with Lock("impl-" + flavour):
         rc, out, err = run(["make", "-f", os.path.join(VERIF, "harness", "build.mk"),
-                            "-j" + NPROC, "FLAVOUR=" + flavour, "REPO=" + REPO, "VERIF=" + VERIF],
+                            "-j" + NPROC, "FLAVOUR=" + flavour, "REPO=" + REPO, "VERIF=" + VERIF, "BUILD=" + BUILD],
                            timeout=1800, cwd=VERIF)
     return rc == 0, out + err
 
@@ -287,7 +291,7 @@ class Ctx:
         print("[%s %6.1fs]" % (self.pid, time.time() - self.t0), *a, flush=True)
 
     def replay_path(self, tag):
-        d = os.path.join(VERIF, "replays")
+        d = os.path.join(OUTROOT, "replays")
         os.makedirs(d, exist_ok=True)
         return os.path.join(d, "%s-%s.json" % (self.pid, tag))
 
@@ -349,8 +353,8 @@ class Ctx:
             "wall_s": round(time.time() - self.t0, 2), "violations": len(self.violations),
             "known_findings_seen": [k.get("description") for k in self.known_hits],
         }
-        os.makedirs(os.path.join(VERIF, "evidence"), exist_ok=True)
-        with open(os.path.join(VERIF, "evidence", self.pid + ".json"), "w") as f:
+        os.makedirs(os.path.join(OUTROOT, "evidence"), exist_ok=True)
+        with open(os.path.join(OUTROOT, "evidence", self.pid + ".json"), "w") as f:
             json.dump(ev, f, indent=1, default=str)
         for v in self.violations:
             print("  what fails: " + " ".join(str(v["what"]).split())[:600], flush=True)
